@@ -48,24 +48,28 @@ def std_dict(cfg):
         add(0x1280, 3, 3, 0, str(cfg["csdo"]))
     rp = cfg.get("rpdo", [[0x200 + n, 254, [link(0x2101, 0, 8)]]])
     rp = [list(x) + [len(x[2])] if len(x) < 4 else list(x) for x in rp]
-    for k, (cid, typ, maps, cnt) in enumerate(rp):
+    # rshift / tshift: the PDOs occupy slots shift.. instead of 0.. (builds with unequal CO_RPDO_N / CO_TPDO_N: the highest slots)
+    rs, ts = cfg.get("rshift", 0), cfg.get("tshift", 0)
+    rp = [(k + rs, v) for k, v in enumerate(rp)]
+    for k, (cid, typ, maps, cnt) in rp:
         add(0x1400 + k, 0, 130, 0, "2")
         add(0x1400 + k, 1, 3, 8, le(cid, 4))
         add(0x1400 + k, 2, 3, 9, str(typ))
-    for k, (cid, typ, maps, cnt) in enumerate(rp):
+    for k, (cid, typ, maps, cnt) in rp:
         nmap = max(len(maps), cfg.get("mapslots", 0))
         add(0x1600 + k, 0, 3, 10, str(cnt))
         for j in range(nmap):
             add(0x1600 + k, j + 1, 3, 11, le(maps[j] if j < len(maps) else 0, 4))
     tp = cfg.get("tpdo", [[0x40000180 + n, 254, 0, 0, [link(0x2100, 0, 8)]]])
     tp = [list(x) + [len(x[4])] if len(x) < 6 else list(x) for x in tp]
-    for k, (cid, typ, inh, evt, maps, cnt) in enumerate(tp):
+    tp = [(k + ts, v) for k, v in enumerate(tp)]
+    for k, (cid, typ, inh, evt, maps, cnt) in tp:
         add(0x1800 + k, 0, 130, 0, "5")
         add(0x1800 + k, 1, 3, 8, le(cid, 4))
         add(0x1800 + k, 2, 3, 9, str(typ))
         add(0x1800 + k, 3, 3, 1, le(inh, 2))
         add(0x1800 + k, 5, 3, 12, le(evt, 2))
-    for k, (cid, typ, inh, evt, maps, cnt) in enumerate(tp):
+    for k, (cid, typ, inh, evt, maps, cnt) in tp:
         nmap = max(len(maps), cfg.get("mapslots", 0))
         add(0x1A00 + k, 0, 3, 10, str(cnt))
         for j in range(nmap):
